@@ -55,6 +55,9 @@ T = {
  'c19r': ('a candidate call inside the argument of another candidate call, aimed at by index', 'C19 index-and-listed-site-differ'),
  'c19s': ('an empty region of the listed program as within=', 'C19 within-not-the-sites-at-or-beneath (needed empty regions as within= and as aims)'),
  'c19u': ("a call inlined out of a compound statement's header and an expression cursor into that header", 'C19 forward-expr-unrelated'),
+ 'c17n': ('a program evaluating a library constant under a stochastic context more than once', 'C17 program-draw-count (needed the consts program)'),
+ 'c18w': ('an evaluation failing inside a nested FPy-to-FPy call, then a program reaching that callee through a nested call on the same thread', 'C18 A3 (exc:RuntimeError) in failure-mix runs'),
+ 'c19t': ('a cursor of a sibling branch / a descendant / from beyond an opaque pass handed to forward', 'C19 forward-across-unrelated'),
 }
 base = os.path.join(os.path.dirname(os.path.dirname(os.path.abspath(__file__))), 'seeded')
 for mid, (needs, caught) in T.items():
